@@ -108,6 +108,28 @@ def run(ctx, prop):
             if E.verdict_of(mA) != E.verdict_of(iA) or (E.verdict_of(mA) == "accept" and mA != iA):
                 a, b = C.diff_facts(mA, iA)
                 disagree.append({"case": case, "only_model": a[:6], "only_impl": b[:6]})
+            # the library entry point (build scripts) on different spellings of the same file:
+            # direct, through a symlinked directory, through a symlink to the file itself that
+            # lives in another directory, with redundant components
+            lib_dir = os.path.join(tmp, "libexport")
+            os.makedirs(lib_dir, exist_ok=True)
+            lib_flink = os.path.join(lib_dir, "main.idl")
+            if not os.path.lexists(lib_flink):
+                os.symlink(os.path.join(rootA, "main.idl"), lib_flink)
+            lib_inc = [os.path.join(rootA, d) for d in inc] + [rootA]
+            lib_res = []
+            for lab, mp in (("direct", os.path.join(rootA, "main.idl")), ("symlinked-dir", os.path.join(link, "main.idl")),
+                            ("symlinked-file", lib_flink), ("redundant", os.path.join(rootA, ".", "..", "src", "main.idl")),
+                            ("relocated", os.path.join(rootB, "main.idl"))):
+                incs_ = lib_inc if lab != "relocated" else [os.path.join(rootB, d) for d in inc] + [rootB]
+                ans = ctx.probe.ask("libgen2 " + mp + " " + " ".join(incs_))
+                lib_res.append((lab, [l for l in ans if l.startswith("lib")]))
+                hist["lib_runs"] = hist.get("lib_runs", 0) + 1
+            for lab, res_ in lib_res[1:]:
+                if res_ != lib_res[0][1]:
+                    oracle_fail.append({"case": case, "failures": [{"error": "the library entry point gives different output for another spelling of the same input path",
+                                                                    "spelling": lab, "reference": lib_res[0][1][:4], "got": res_[:4]}]})
+                    break
             for b in backends:
                 variants = []
                 # (label, main argument, -I arguments, cwd)
@@ -147,6 +169,13 @@ def run(ctx, prop):
                         # what the target held before must not matter: a longer, unrelated file
                         with open(out, "w") as fh_:
                             fh_.write("/* stale */\n" * 20000)
+                    if k % 3 == 2 and snaps and snaps[0][1] == 0:
+                        # ... nor files of the right names and the right sizes with other bytes
+                        for fn_, data_ in snaps[0][2].items():
+                            stale_ = bytes((c_ ^ 1) if 48 <= c_ < 58 else c_ for c_ in data_)
+                            tgt_ = out if fn_ == "<file>" else os.path.join(out, fn_)
+                            with open(tgt_, "wb") as fh_:
+                                fh_.write(stale_)
                     rc = run_variant(ctx, main_arg, inc_args, b, out, cwd, extra=extra)
                     hist["runs"] += 1
                     snaps.append((label, rc, snapshot(out)))
